@@ -108,6 +108,7 @@ func (w *shutWorld) client(i int, phase string) {
 
 func shutdownScenario(cfg ShutCfg) func() {
 	return func() {
+		resetPackages()
 		w := &shutWorld{cfg: cfg, lis: &Listener{Cap: cfg.PipeCap}, gate: mc.MakeChan[struct{}](0)}
 		exec := kmipserver.NewBatchExecutor()
 		exec.Route(kmip.OperationActivate, kmipserver.HandleFunc(w.handler))
